@@ -117,7 +117,11 @@ class DelayRun:
             self.ev.append({'op': op, 'n': n, 'nested': nested, 'pend': self.pend()})
         elif op == 'clear':
             if self.owner == 'mode' and self.mode.active and not self.mode.stopping:
-                self.mode.stop()     # "its owning mode stops"
+                # "its owning mode stops": the mode clears its delays when the stop is requested and once more when
+                # it has stopped (delays added while it was stopping, fix ee93c65) - the second clear is logged
+                # from the mode's stop callback, which runs right after it (when the stop was requested by a delay
+                # callback: in the event processing that ends that callback, before the loop runs another timer)
+                self.mode.stop(callback=lambda: self.ev.append({'op': 'clear', 'nested': nested, 'pend': self.pend()}))
             else:
                 self.dm.clear()
             self.ev.append({'op': op, 'nested': nested, 'pend': self.pend()})
